@@ -153,16 +153,12 @@ static int env_child_exit(unsigned int k)
 }
 
 /* ---- process / file stand-ins */
-#if !defined ENV_MAXSPAWN
-# define ENV_MAXSPAWN 8
-#endif
+/* the spawn log keeps the most recent request only (scalars: no symbolic array index) */
 struct env_spawn_s {
 	ev_tstamp when;
 	int norun;
-	int dur;
-	int dur_iso;
 };
-static struct env_spawn_s env_spawn[ENV_MAXSPAWN];
+static struct env_spawn_s env_last_spawn;
 static unsigned int env_nspawn;
 static int env_next_fd = 10;
 static int env_next_pid = 1000;
@@ -178,12 +174,8 @@ int posix_spawn(pid_t *pid, const char *path, const posix_spawn_file_actions_t *
 {
 	(void)path; (void)fa; (void)at; (void)envp;
 	if (env_spawn_fails) return -1;
-	if (env_nspawn < ENV_MAXSPAWN) {
-		env_spawn[env_nspawn].when = ENV_NOW;
-		env_spawn[env_nspawn].norun = argv[2] != NULL;
-		/* the request body is written right after the spawn (vtodoify) */
-		env_spawn[env_nspawn].dur = -1;
-	}
+	env_last_spawn.when = ENV_NOW;
+	env_last_spawn.norun = argv[2] != NULL;
 	env_nspawn++;
 	*pid = env_next_pid++;
 	return 0;
